@@ -7,6 +7,7 @@ use serde_json::json;
 use crate::e1::check_clauses;
 use crate::oracle::Sem;
 use crate::report::{Ctx, Report, Tier};
+use crate::provider::CancelPlan;
 use crate::run::*;
 use crate::sweep::*;
 use crate::universe::*;
@@ -245,18 +246,26 @@ pub fn check_spec(spec: &Spec, order: (usize, u64, u32), acc: &mut Acc) {
     let case = build(spec);
     let mut cfg = RunCfg::default();
     cfg.dump = true;
-    let res = run_case(&case.u, &case.p, &cfg);
+    let mut session = Session::new(&case.u, &cfg);
+    let res = session.solve(&case.p, CancelPlan::Never, vec![]);
+    acc.evaluations += 1;
+    // the same problem once more on the same solver: the at-most-one encoding is per-solve state and
+    // must be rebuilt completely (candidates and helper variables known from the first call included)
+    let res2 = session.solve(&case.p, CancelPlan::Never, vec![]);
     acc.evaluations += 1;
     let mk = |sig: &str, what: String| Violation {
         property: "C15".into(),
         signature: sig.to_string(),
         what,
-        replay: json!({"kind": "c15", "spec": spec, "observed": res.outcome.short()}),
+        replay: json!({"kind": "c15", "spec": spec, "observed": format!("{} / second solve {}", res.outcome.short(), res2.outcome.short())}),
         order,
     };
     let p_name: Id = 0;
     // a single wanted candidate can be unsatisfiable by construction (RevertedDiscovery with i >= k)
     let single_sat = spec.want.len() != 1 || Sem::new(&case.u, &case.p).sat();
+    // (a reused solver may reach another valid solution: both calls are judged by the same rule, not compared)
+    for (res, tag) in [(&res, ""), (&res2, ":second-solve")] {
+    let mk = |sig: &str, what: String| mk(&format!("{sig}{tag}"), format!("{what}{}", if tag.is_empty() { "" } else { " [same problem solved a second time on the same solver]" }));
     match (spec.want.len(), &res.outcome) {
         (_, Outcome::Panic(_)) => acc.count("panics_left_to_C04"),
         (1, Outcome::Unsat) if !single_sat => acc.count("singles_unsat_by_construction"),
@@ -293,7 +302,8 @@ pub fn check_spec(spec: &Spec, order: (usize, u64, u32), acc: &mut Acc) {
         )),
         _ => {}
     }
-    if let Some(d) = &res.dump {
+    }
+    for d in [&res.dump, &res2.dump].into_iter().flatten() {
         let sem = Sem::new(&case.u, &case.p);
         let mut tmp = Acc::default();
         if let Err((sig, what)) = check_clauses(&sem, d, &mut tmp) {
